@@ -26,7 +26,33 @@ THEOREMS = [
 
 NP = {"np.int8": np.int8, "np.int16": np.int16, "np.int32": np.int32, "np.int64": np.int64, "np.uint8": np.uint8}
 TO = {"torch.uint8": torch.uint8, "torch.int16": torch.int16, "torch.int32": torch.int32, "torch.int64": torch.int64}
-CONTAINERS = ["list"] + list(NP) + list(TO)
+# memory layouts of array containers (same logical content): Fortran order, transposed view, strided slice
+LAYOUTS = ["np.int64:F", "np.int32:T", "np.int64:strided", "torch.int64:T", "torch.int16:T", "torch.int64:strided"]
+CONTAINERS = ["list"] + list(NP) + list(TO) + LAYOUTS
+
+
+def _wrap(data, container):
+    """nested list -> array / tensor of the container's dtype in the container's memory layout"""
+    base, _, layout = container.partition(":")
+    if base in NP:
+        a = np.array(data, dtype=NP[base])
+        if layout == "F":
+            a = np.asfortranarray(a)
+        elif layout == "T" and a.ndim >= 2:
+            a = np.ascontiguousarray(np.swapaxes(a, -1, -2)).swapaxes(-1, -2)
+        elif layout == "strided":
+            big = np.repeat(a, 2, axis=-1)
+            big[..., 1::2] = 7
+            a = big[..., ::2]
+        return a
+    t = torch.tensor(data, dtype=TO[base])
+    if layout == "T" and t.dim() >= 2:
+        t = t.transpose(-1, -2).contiguous().transpose(-1, -2)
+    elif layout == "strided":
+        big = t.repeat_interleave(2, dim=-1)
+        big[..., 1::2] = 7
+        t = big[..., ::2]
+    return t
 SHAPES = ["flat", "row", "matrix"]
 
 
@@ -43,9 +69,9 @@ def build(values, container, shape, mshape):
         data = [list(values[r * m : (r + 1) * m]) for r in range(n)]
     if container == "list":
         return data
-    if container in NP:
-        return np.array(data, dtype=NP[container])
-    return torch.tensor(data, dtype=TO[container])
+    if ":" in container and shape == "flat" and not container.endswith("strided"):
+        return None  # a 1-D array has one layout
+    return _wrap(data, container)
 
 
 def build_batch(rows, container, mshape, shape):
@@ -61,9 +87,9 @@ def build_batch(rows, container, mshape, shape):
         data = [list(r) for r in rows]
     if container == "list":
         return data
-    if container in NP:
-        return np.array(data, dtype=NP[container])
-    return torch.tensor(data, dtype=TO[container])
+    if ":" in container and shape == "flat" and not container.endswith("strided"):
+        return None  # a 1-D array has one layout
+    return _wrap(data, container)
 
 
 def canon(x):
@@ -184,7 +210,7 @@ def run_graph(ck, gd, cfg, label):
 
         base = [[(3 * r + 5 * c + 4) % 11 for c in range(gd.n)] for r in range(gd.n)]
         for container in CONTAINERS:
-            obj = base if container == "list" else np.array(base, dtype=NP[container]) if container in NP else torch.tensor(base, dtype=TO[container])
+            obj = base if container == "list" else _wrap(base, container)
             snap = json.loads(json.dumps(base))
             ck.case(["matgen-reuse", label, container], True)
             ck.count("entry:MatrixGenerator.create(reused object)")
@@ -199,7 +225,7 @@ def run_graph(ck, gd, cfg, label):
     if gd.kind == "perm":
         ref = canon(CayleyGraph(CayleyGraphDef.create(gd.gens, central_state=gd.central), **cfg).bfs())
         for container in CONTAINERS[1:]:
-            arr = np.array(gd.gens, dtype=NP[container]) if container in NP else torch.tensor(gd.gens, dtype=TO[container])
+            arr = _wrap(gd.gens, container)
             ck.case(["gens", label, container], True)
             ck.count("entry:CayleyGraphDef.create(generators)")
             st, out = algos.call(lambda: canon(CayleyGraph(CayleyGraphDef.create(arr, central_state=gd.central), **cfg).bfs()))  # pylint: disable=cell-var-from-loop
